@@ -32,6 +32,9 @@ class Box:
     def boom(self, *args):
         raise Boom(*args)  # SITE-MARK-C14 boom
 
+    def leave(self, code):
+        raise SystemExit(code)  # SITE-MARK-C14 leave
+
     def make_list(self, n):
         return managed_list(list(range(n)))
 
@@ -152,6 +155,12 @@ def do_call(reg, handle, method, args, kwargs, store_as):
         elif method == '@iadd':
             p += args[0]
             r = None
+        elif method == '@imul':
+            p *= args[0]  # in place: the name must still refer to the proxy afterwards
+            r = None if isinstance(p, BaseProxy) else ('NAME-REBOUND-TO', type(p).__name__)
+        elif method == '@iadd-check':
+            p += args[0]
+            r = None if isinstance(p, BaseProxy) else ('NAME-REBOUND-TO', type(p).__name__)
         elif method == '@iter':
             r = list(iter(p))  # dict proxies hand out an iterator proxy; list proxies are iterated through __getitem__
         elif method == '@str':
